@@ -503,14 +503,14 @@ func init() {
 		ID: "C08", Suite: "hist", CoqImports: []string{"Check.C08"},
 		CoqType: "list iop", CoqRun: "Check.C08.run",
 		Quick: 700, Thorough: 30000, Parallel: 8,
-		Gen:   func(r *Rand, i int) []c08Op { return c08Gen(r, false) },
-		Run:   c08Run, Coq: c08Coq, Shrink: c08Shrink,
+		Gen: func(r *Rand, i int) []c08Op { return c08Gen(r, false) },
+		Run: c08Run, Coq: c08Coq, Shrink: c08Shrink,
 	})
 	Register(Spec[[]c08Op]{
 		ID: "C08", Suite: "histsetsender", CoqImports: []string{"Check.C08"},
 		CoqType: "list iop", CoqRun: "Check.C08.run",
 		Quick: 300, Thorough: 10000, Parallel: 8,
-		Gen:   func(r *Rand, i int) []c08Op { return c08Gen(r, true) },
-		Run:   c08Run, Coq: c08Coq, Shrink: c08Shrink,
+		Gen: func(r *Rand, i int) []c08Op { return c08Gen(r, true) },
+		Run: c08Run, Coq: c08Coq, Shrink: c08Shrink,
 	})
 }
